@@ -10,6 +10,7 @@ mod enga;
 mod engb;
 mod engc;
 mod enge;
+mod engf;
 #[cfg(feature = "shuttle")]
 mod engd;
 mod common;
@@ -49,6 +50,9 @@ fn main() {
         }
         Some("run") => std::process::exit(driver::cmd_run(&args[2..])),
         Some("shrink") => std::process::exit(driver::cmd_shrink(&args[2..])),
+        Some("routinator") => std::process::exit(
+            engf::routinator_main(&args[2..])
+        ),
         Some("plan") => std::process::exit(driver::cmd_plan(&args[2..])),
         Some("replay") => std::process::exit(driver::cmd_replay(&args[2..])),
         _ => {
